@@ -350,7 +350,7 @@ func init() {
 			}
 		}})
 
-	register(&Rule{ID: "C13.pull", Props: []string{"C13", "C12"}, Floor: 1,
+	register(&Rule{ID: "C13.pull", Props: []string{"C13", "C12", "C11", "C01"}, Floor: 1,
 		Doc: "settling a validator always pulls its pending rewards from x/distribution, unless the module holds no delegation on it",
 		Run: func(e *Engine, r *RuleRun) {
 			fn := r.Need("keeper.Keeper.ClaimValidatorRewards")
